@@ -156,7 +156,23 @@ def mk_asset(a, pool, tz=None):
 
 
 def mk_prices(spec):
+    if spec.get('opts', {}).get('price_frame_offgrid'):
+        # the prices the user holds are a time series whose stamps are not grid points (here: shifted by half a step, one more point
+        # behind the end); what counts on the grid is the documented interpolation of that series (Timegrid.prices_to_grid)
+        fr = mk_price_frame(spec)
+        tg = mk_grid(spec['grid'])
+        pg = tg.prices_to_grid(fr)
+        return {k: np.asarray(pg[k].values, dtype=float) for k in fr.columns}
     return {k: np.asarray(v, dtype=float) for k, v in spec.get('prices', {}).items()}
+
+
+def mk_price_frame(spec):
+    g = spec['grid']
+    tg = mk_grid(g)
+    step = pd.Timedelta(g['freq']) if g['freq'][0].isdigit() else pd.Timedelta(1, g['freq'])
+    idx = [t - step / 2 for t in tg.timepoints] + [tg.timepoints[-1] + step / 2]
+    data = {k: list(v) + [v[-1]] for k, v in spec.get('prices', {}).items()}
+    return pd.DataFrame(data, index=pd.DatetimeIndex(idx))
 
 
 def mk_portfolio(spec):
